@@ -32,7 +32,7 @@ ALL_FIELDS = ["D", "F", "R", "P", "T", "E", "roots", "wroots", "vals", "raws", "
 PROPS = {
     "C01": dict(streams=["corpus", "contract", "exh2", "exh3s", "api", "giveup", "large"], fields=["D", "E", "roots"], oracles=["O1"],
                 contract=True, title="no premature destruction", bigscen="O1"),
-    "C02": dict(streams=["corpus", "contract", "weakheavy", "exh2", "script", "api", "giveup", "large"], fields=["D", "F", "E"], oracles=["O2"],
+    "C02": dict(streams=["corpus", "contract", "weakheavy", "exh2", "script", "api", "giveup", "large", "panic"], fields=["D", "F", "E"], oracles=["O2"],
                 contract=True, title="values die at most once; no access after release", weakraw="O2"),
     "C03": dict(streams=["corpus", "contract", "exh2", "exh3s", "api", "shallow", "large", "xl"], fields=["D"], oracles=["O3"], contract=True,
                 title="orphaned group destroyed in full, synchronously", bigscen="O3"),
